@@ -74,6 +74,20 @@ type cliScenario struct {
 	outs  []string // output files (relative to the output dir) to collect; "-" = stdout
 }
 
+// longNamesSchema: objects nested five deep under long property names, a very long definition name, long enum values.
+func longNamesSchema() string {
+	name := func(i int) string {
+		return fmt.Sprintf("level_%d_with_a_property_name_that_goes_on_and_on_%d", i, i)
+	}
+	inner := `{"type":"object","properties":{"leaf":{"type":"string","enum":["` + strings.Repeat("a very long enum value ", 12) + `","short"]}}}`
+	for i := 5; i >= 1; i-- {
+		inner = fmt.Sprintf(`{"type":"object","title":"%s","properties":{"%s":%s,"%s":{"type":"array","items":{"type":"object","properties":{"x":{"type":"integer"}}}}}}`,
+			strings.Repeat("Title words ", 6)+fmt.Sprint(i), name(i), inner, name(i)+"_list")
+	}
+	long := strings.Repeat("DefinitionNameSegment", 15)
+	return `{"$id":"https://example.com/schemas/deep","type":"object","properties":{"root":` + inner + `,"d":{"$ref":"#/$defs/` + long + `"}},"$defs":{"` + long + `":{"type":"object","properties":{"p":{"type":"object","properties":{"q":{"type":"string"}}}}}}}`
+}
+
 func cliScenarios() []cliScenario {
 	a := `{"$id":"https://example.com/schemas/order","type":"object","title":"An Order","properties":{"id":{"type":"string"},"lines":{"type":"array","items":{"$ref":"#/$defs/Line"}},"customer":{"$ref":"customer.json"}},"required":["id"],"$defs":{"Line":{"type":"object","properties":{"sku":{"type":"string"},"qty":{"type":"integer","minimum":1}},"required":["sku"]},"item":{"type":"object","properties":{"a":{"type":"string"}}},"Item":{"type":"object","properties":{"b":{"type":"integer"}}}}}`
 	b := `{"$id":"https://example.com/schemas/customer","type":"object","properties":{"name":{"type":"string"},"Name":{"type":"string"},"NAME":{"type":"integer"},"address":{"$ref":"sub/address.json"}},"required":["name"]}`
@@ -112,6 +126,12 @@ func cliScenarios() []cliScenario {
 			},
 			args: func(root string, abs bool) []string {
 				return []string{"-p", "main", "--resolve-extension", ".yml", "--resolve-extension", ".yaml", "--resolve-extension", ".json", p(root, abs, "root.json")}
+			}, outs: []string{"-"}},
+		// size-triggered paths: type names far beyond any golden (objects nested five deep under 40-character property
+		// names, a 300-character definition name, long enum values and titles), in separate processes
+		{name: "very long nested names", files: map[string]string{"deep.json": longNamesSchema()},
+			args: func(root string, abs bool) []string {
+				return []string{"-p", "main", "-t", p(root, abs, "deep.json")}
 			}, outs: []string{"-"}},
 		{name: "one file with options", files: files,
 			args: func(root string, abs bool) []string {
